@@ -102,9 +102,9 @@ def audit(pid):
         open(fp, "w").write(txt)
     rc, out, dt = run(["lake", "env", "lean", f], cwd=LEAN, timeout=1200)
     res = {}
-    for m in re.finditer(r"'([^']+)' depends on axioms: \[([^\]]*)\]", out.replace("\n ", " ").replace("\n", " ")):
+    for m in re.finditer(r"'(\S+)' depends on axioms: \[([^\]]*)\]", out.replace("\n ", " ").replace("\n", " ")):
         res[m.group(1)] = [a.strip() for a in m.group(2).split(",") if a.strip()]
-    for m in re.finditer(r"'([^']+)' does not depend on any axioms", out):
+    for m in re.finditer(r"'(\S+)' does not depend on any axioms", out):
         res[m.group(1)] = []
     problems = []
     if rc != 0:
